@@ -1,9 +1,19 @@
 import Spine.TeardownKeys
+import Spine.TeardownServe
+import Spine.TeardownKeysPend
 open Spine Spine.TdK
 /-! Line protocol for the identity-key teardown model `Spine.TdK` (C10). One op per line, one answer per line.
     `facts sss bbb ddd eee` — what RemoveSubscriptionsForEntity / RemoveBindingsForEntity / CleanRemoteDeviceCaches /
     CleanRemoteEntityCaches compare, three bits each: connection, device address, entity (the harness passes the values the
-    translator derived from the tree under test). `reset` empties the world. Unknown op: `bad-op`. -/
+    translator derived from the tree under test). `reset` empties the world. Unknown op: `bad-op`.
+
+    SERVING (composition with the dispatch model, `Spine.TdS`): `ctx fn typ fdsCsv s1 s2 s3 s4 cl` declares the harness
+    world's context (local server feature [i]/s_i of type `typ` holding the functions `fdsCsv`, `fn` readable and
+    writable; local client feature [1]/cl; every remote entity but [0] announces client features 1, 2 and server feature 3
+    of that type); `dg q cls srcEnt srcFeat dstEnt dstFeat fn ctr ack val` is an inbound datagram of connection `q`
+    (answer: the outputs per connection; the data of the local features is updated); `call q sub|bind cEnt cFeat sEnt
+    sFeat typ ctr ack` is a node-management request call of `q` (answer: outputs; a granted request enters the registry
+    through `TdK.addEntry`). -/
 
 def parseEnt (s : String) : List Nat := (s.splitOn ".").filterMap String.toNat?
 def showEnt (e : List Nat) : String := ".".intercalate (e.map toString)
@@ -32,6 +42,99 @@ def showEv : Ev → String
 
 def showState (s : St) : String :=
   s!"subs {showSet (s.subs.map showEntry)} | binds {showSet (s.binds.map showEntry)} | csubs {showSet (s.csubs.map showBook)} | cbinds {showSet (s.cbinds.map showBook)} | conns {showSet (s.conns.map showConn)}"
+
+/-! ### serving: the composed model `Spine.TdS` -/
+
+def mkCtx (fn typ : Nat) (fds : List Nat) (srv : List Nat) (cl : Nat) : TdS.Ctx :=
+  { loc := [{ ent := [0], feat := 0, typ := 0, role := .special, fds := [], ops := [], nm := true }] ++
+      (srv.zipIdx.map fun (f, i) => { ent := [i + 1], feat := f, typ := typ, role := .server, fds := fds, ops := [(fn, true)] }) ++
+      [{ ent := [1], feat := cl, typ := typ, role := .client, fds := fds, ops := [] }],
+    featsOf := fun _ e => if e = [0] then [⟨[0], 0, [], 0, .special⟩]
+      else [⟨e, 1, fds, typ, .client⟩, ⟨e, 2, fds, typ, .client⟩, ⟨e, 3, fds, typ, .server⟩] }
+
+def showAddr (a : Disp.Addr) : String := s!"{showEnt a.1}/{a.2}"
+def showRef : Option Nat → String
+  | some r => toString r
+  | none => "-"
+
+def showOut : Disp.Out → String
+  | .reply r fn src dst v _ => s!"reply:{showRef r}:{fn}:{showAddr src}:{showAddr dst}:v{v}"
+  | .result r e src dst _ => s!"result:{showRef r}:{e}:{showAddr src}:{showAddr dst}"
+  | .readReq fn src dst => s!"readReq:{fn}:{showAddr src}:{showAddr dst}"
+  | .notify fn src dst v => s!"notify:{fn}:{showAddr src}:{showAddr dst}:v{v}"
+  | .subReq => "subReq"
+  | .panic => "panic"
+
+def showOuts (l : List (Nat × Disp.Out)) : String := showSet (l.map fun o => s!"{o.1}>{showOut o.2}")
+
+def parseCls : String → Option Disp.Cls
+  | "read" => some .read | "reply" => some .reply | "notify" => some .notify
+  | "write" => some .write | "call" => some .call | "result" => some .result
+  | _ => none
+
+structure DS where
+  F : Facts
+  p : PSt
+  n : Nat
+  x : TdS.Ctx
+
+def DS.s (D : DS) : St := D.p.s
+
+def showPend (x : Pend) : String := s!"{x.ski}#{x.epoch}:{x.ctr}:{showEnt x.ent}/{x.cFeat}>{showEnt x.srv.1}/{x.srv.2}"
+
+/-- PENDING WRITE APPROVALS (`Spine/TeardownKeysPend.lean`): `connect` / `drop` / `dropent` run the extended steps;
+    `pwrite k ctr ent cf sEnt sFeat` is a write of connection k to a server feature with an approval callback (answer:
+    `pending <epoch>` or `denied`), `verdict k epoch ctr sEnt sFeat` the application's verdict for the message of that
+    connection epoch (answer: `taken` / `ignored`), `pends` the pending approvals with their keys. -/
+def pendOp (F : Facts) (p : PSt) (ws : List String) : Option (PSt × String) :=
+  match ws with
+  | ["connect", k, d, es] => match nats [k, d] with
+    | some [k, d] =>
+      if (forSki p.s k).isSome then some (p, "dup") else some (pconnect p ⟨k, d, (es.splitOn ",").map parseEnt⟩, "ok")
+    | _ => none
+  | ["drop", k] => k.toNat?.map fun k => let r := pdrop F p k; (r.1, showSet (r.2.map showEv))
+  | ["dropent", k, e] => k.toNat?.map fun k => let r := pdropEntity F p k (parseEnt e); (r.1, showSet (r.2.map showEv))
+  | ["dropentdrop", k, e] => k.toNat?.map fun k =>
+    -- the connection removed while its entity-removed notification is processed: the sequential result (every
+    -- interleaving ends there), the events of both as one multiset
+    let r1 := pdropEntity F p k (parseEnt e)
+    let r2 := pdrop F r1.1 k
+    (r2.1, showSet ((r1.2 ++ r2.2).map showEv))
+  | ["pwrite", k, ctr, e, cf, se, sf] => match nats [k, ctr, cf, sf] with
+    | some [k, ctr, cf, sf] =>
+      let r := pwrite p k ctr (parseEnt e) cf (parseEnt se, sf)
+      some (r.1, if r.2 then s!"pending {epochOf p k}" else "denied")
+    | _ => none
+  | ["verdict", k, ep, ctr, se, sf] => match nats [k, ep, ctr, sf] with
+    | some [k, ep, ctr, sf] =>
+      let r := presolve p k ep ctr (parseEnt se, sf)
+      some (r.1, if r.2 then "taken" else "ignored")
+    | _ => none
+  | ["pends"] => some (p, showSet (p.pends.map showPend))
+  | _ => none
+
+def serveOp (D : DS) (ws : List String) : Option (DS × String) :=
+  match ws with
+  | ["ctx", fn, typ, fds, s1, s2, s3, s4, cl] => match nats [fn, typ, s1, s2, s3, s4, cl] with
+    | some [fn, typ, s1, s2, s3, s4, cl] =>
+      some ({ D with x := mkCtx fn typ ((fds.splitOn ",").filterMap String.toNat?) [s1, s2, s3, s4] cl }, "ctx")
+    | _ => none
+  | ["dg", q, cls, se, sf, de, df, fn, ctr, ack, val] => match nats [q, sf, df, fn, ctr, ack, val], parseCls cls with
+    | some [q, sf, df, fn, ctr, ack, val], some cls =>
+      let d : Disp.Dg := { src := (parseEnt se, sf), dst := (parseEnt de, df), ctr := some ctr, ref := none, cls := cls,
+                           ack := ack == 1, fn := fn, val := val }
+      let r := TdS.serveCmd D.x D.s q d
+      some ({ D with x := r.1 }, showOuts r.2)
+    | _, _ => none
+  | ["call", q, kind, ce, cf, se, sf, typ, ctr, ack] => match nats [q, cf, sf, typ, ctr, ack] with
+    | some [q, cf, sf, typ, ctr, ack] =>
+      if kind != "sub" && kind != "bind" then none else
+      let c : Disp.Call := if kind == "bind" then .bind (parseEnt ce, cf) (parseEnt se, sf) typ else .sub (parseEnt ce, cf) (parseEnt se, sf) typ
+      let r := TdS.serveCall D.x D.s q ctr (ack == 1) c
+      let s' := if r.1 then addEntry D.s (kind == "bind") (D.n + 1) q (parseEnt ce) cf (parseEnt se) sf else D.s
+      some ({ D with p := { D.p with s := s' }, n := D.n + 1 }, showOuts r.2)
+    | _ => none
+  | _ => none
 
 def answer (F : Facts) (s : St) (n : Nat) (ws : List String) : Facts × St × Nat × String :=
   match ws with
@@ -73,13 +176,29 @@ def answer (F : Facts) (s : St) (n : Nat) (ws : List String) : Facts × St × Na
     | none => (F, s, n, "bad-op")
   | _ => (F, s, n, "bad-op")
 
-partial def loop (h out : IO.FS.Stream) (F : Facts) (s : St) (n : Nat) : IO Unit := do
+partial def loop (h out : IO.FS.Stream) (D : DS) : IO Unit := do
   let line ← h.getLine
   if line.isEmpty then out.flush; return ()
   let ws := (line.trimAscii.toString.splitOn " ").filter (· ≠ "")
-  let (F', s', n', ans) := answer F s n ws
-  out.putStrLn ans
-  out.flush
-  loop h out F' s' n'
+  match serveOp D ws with
+  | some (D', ans) =>
+    out.putStrLn ans
+    out.flush
+    loop h out D'
+  | none =>
+    match pendOp D.F D.p ws with
+    | some (p', ans) =>
+      out.putStrLn ans
+      out.flush
+      loop h out { D with p := p' }
+    | none =>
+      let (F', s', n', ans) := answer D.F D.s D.n ws
+      out.putStrLn ans
+      out.flush
+      -- `reset` empties the world; the data of the local features starts afresh with it (the context's shape stays)
+      if ws == ["reset"] then
+        loop h out { F := F', p := { s := s' }, n := n', x := { D.x with data := fun _ _ => 0, snd := fun _ => (0, []) } }
+      else loop h out { F := F', p := { D.p with s := s' }, n := n', x := D.x }
 
-def main : IO Unit := do loop (← IO.getStdin) (← IO.getStdout) Facts.head { conns := [] } 0
+def main : IO Unit := do
+  loop (← IO.getStdin) (← IO.getStdout) { F := Facts.head, p := { s := { conns := [] } }, n := 0, x := mkCtx 0 0 [] [1, 1, 1, 1] 2 }
